@@ -118,8 +118,13 @@ pub fn c15_worker(ctx: &mut Ctx) {
         }
         let mut rng = ctx.rng("segpair", i);
         ctx.evaluations += 1;
+        let before = st.segment_pairs;
         if let Err(m) = check_segment_pair(&mut rng, &mut st) {
             ctx.violation("ordering:pair", &m, json!({"kind": "segpair", "property": "C15", "seed": ctx.seed, "index": i}));
+        }
+        if st.segment_pairs > before && i % 16 == 0 {
+            // distinct by construction stream index (sampled 1/16 to keep the hash set small)
+            ctx.note_nontrivial(crate::util::fnv64(format!("segpair{}-{}", ctx.seed, i).as_bytes()));
         }
     }
     ctx.cnt("constructed_segment_pairs_compared", st.segment_pairs);
